@@ -654,6 +654,7 @@ func errResultIndex(f *ssa.Function) int {
 // errKind classifies an error-typed return operand: "nil", "global" (load of a package-level
 // error variable), "phi-nil" (may be nil), "other".
 func errKind(v ssa.Value) string {
+	v = unspill(v)
 	switch x := v.(type) {
 	case *ssa.Const:
 		if x.Value == nil {
